@@ -7,6 +7,7 @@ import (
 	"math/big"
 	"time"
 
+	"verif/internal/adapt"
 	"verif/internal/core"
 	"verif/internal/gen"
 	"verif/internal/refmodel"
@@ -177,6 +178,32 @@ func runC15(r *core.Run) {
 						bad("is-expired", t.name+".IsExpired[offline-keys]", fmt.Sprintf("OFFLINE_KEYS set, transient key valid until %d: own expiry %+d s from now: IsExpired=%v", oexp, d, expired))
 					}
 					r.Distinct([]byte("offl-exp"), []byte(t.name), refmodel.BE(uint64(d+1<<40), 8), refmodel.BE(uint64(oexp), 4))
+				}
+			}
+		}
+	}
+	// the same fields through the signing constructor: every representable (published, offset) pair is a value the
+	// library must be able to build, and what it builds must report the exact expiry
+	{
+		good := ls2
+		good.Leases = []refmodel.Lease2{{Hash: [32]byte{1}, TunnelID: 1, EndSec: 1<<32 - 1}}
+		for _, pub := range []uint32{1, 1<<31 - 1, 1 << 31, 1<<32 - 65536, 1<<32 - 65535, 1<<32 - 600, 1<<32 - 2, 1<<32 - 1, now} {
+			for _, off := range []uint16{0, 1, 599, 600, 601, 32767, 32768, 65534, 65535} {
+				r.Evaluations.Add(1)
+				m := good
+				m.Published, m.Expires = pub, off
+				var v *lease_set2.LeaseSet2
+				var err error
+				if pan, msg := core.Guard(func() { v, err = adapt.LeaseSet2(m, kp) }); pan {
+					bad("constructor-panics", "lease_set2.NewLeaseSet2", fmt.Sprintf("published=%d expires=%d: %s", pub, off, msg))
+					continue
+				}
+				if err != nil || v == nil {
+					bad("constructor-refuses-representable-fields", "lease_set2.NewLeaseSet2", fmt.Sprintf("published=%d s, expires=+%d s (both within their fields; exact expiry %d s): refused: %v", pub, off, uint64(pub)+uint64(off), err))
+					continue
+				}
+				if got := v.ExpirationTime().Unix(); got != int64(pub)+int64(off) || v.PublishedTime().Unix() != int64(pub) {
+					bad("expiry", "LeaseSet2.ExpirationTime[constructed]", fmt.Sprintf("constructed with published=%d expires=%d: ExpirationTime %d, exact %d", pub, off, got, int64(pub)+int64(off)))
 				}
 			}
 		}
